@@ -136,7 +136,8 @@ r_buf_rpos_cmp(r_buf_rpos_p rpos1, r_buf_rpos_p rpos2) {
 			return (1);
 		return (-1); /* rpos1->iov_index < rpos2->iov_index */
 	}
-	if (rpos1->round_num > rpos2->round_num)
+	/* Round counter may wrap: compare via difference. */
+	if (((size_t)(rpos1->round_num - rpos2->round_num)) <= (((size_t)~0) >> 1))
 		return (1);
 
 	return (-1); /* rpos1->round_num < rpos2->round_num */
@@ -203,7 +204,8 @@ r_buf_rpos_init(r_buf_p r_buf, r_buf_rpos_p rpos, size_t data_size) {
 		return (EINVAL);
 
 	rpos->iov_off = 0;
-	rpos->iov_index = (r_buf->iov_index + 1);
+	rpos->iov_index = (r_buf->iov_index +
+	    ((0 != r_buf->iov[r_buf->iov_index].iov_len) ? 1 : 0)); /* Current block may be not commited yet. */
 	rpos->round_num = r_buf->round_num;
 	
 	while (rpos->iov_index > 0 &&
@@ -276,8 +278,9 @@ r_buf_rpos_check_fast(r_buf_p r_buf, r_buf_rpos_p rpos) {
 			/* Reader out of buf range in previous round - normal. */
 			return (1); /* OK: fixed. */
 		}
-		if (rpos->iov_index > r_buf->iov_index)
-			return (1); /* OK: in range. */
+		if (rpos->iov_index > r_buf->iov_index &&
+		    ((size_t)(r_buf->iov[rpos->iov_index].iov_base - r_buf->buf)) >= r_buf->wpos)
+			return (1); /* OK: in range and bytes not overwritten. */
 		/* Out of range: slow reader. */
 		return (0);
 	}
@@ -299,7 +302,8 @@ r_buf_rpos_check(r_buf_p r_buf, r_buf_rpos_p rpos, size_t *drop_size_ret) {
 			return (1); /* OK: in range. */
 		/* rpos > wpos */
 		rpos->iov_off = 0;
-		rpos->iov_index = (r_buf->iov_index + 1);
+		rpos->iov_index = (r_buf->iov_index +
+		    ((0 != r_buf->iov[r_buf->iov_index].iov_len) ? 1 : 0)); /* Current block may be not commited yet. */
 		if (NULL != drop_size_ret) {
 			(*drop_size_ret) = 0;
 		}
@@ -315,13 +319,22 @@ r_buf_rpos_check(r_buf_p r_buf, r_buf_rpos_p rpos, size_t *drop_size_ret) {
 			rpos->round_num ++;
 			return (1); /* OK: fixed. */
 		}
-		if (rpos->iov_index > r_buf->iov_index)
-			return (1); /* OK: in range. */
+		if (rpos->iov_index > r_buf->iov_index &&
+		    ((size_t)(r_buf->iov[rpos->iov_index].iov_base - r_buf->buf)) >= r_buf->wpos)
+			return (1); /* OK: in range and bytes not overwritten. */
 		/* Out of range: slow reader. */
-		drop_size = (r_buf->size + r_buf_iovec_calc_size(&r_buf->iov[rpos->iov_index],
-		    (1 + r_buf->iov_index - rpos->iov_index)));
+		if (rpos->iov_index > r_buf->iov_index) {
+			/* Less but larger blocks in new round: block index is
+			 * ahead, but block bytes already overwritten. */
+			drop_size = ((r_buf->size - (size_t)(r_buf->iov[rpos->iov_index].iov_base -
+			    r_buf->buf)) + r_buf->wpos);
+		} else {
+			drop_size = (r_buf->size + r_buf_iovec_calc_size(&r_buf->iov[rpos->iov_index],
+			    (1 + r_buf->iov_index - rpos->iov_index)));
+		}
 		rpos->iov_off = 0;
-		rpos->iov_index = (r_buf->iov_index + 1);
+		rpos->iov_index = (r_buf->iov_index +
+		    ((0 != r_buf->iov[r_buf->iov_index].iov_len) ? 1 : 0)); /* Current block may be not commited yet. */
 		rpos->round_num = r_buf->round_num;
 		if (NULL != drop_size_ret) {
 			(*drop_size_ret) = drop_size;
@@ -337,13 +350,18 @@ r_buf_rpos_check(r_buf_p r_buf, r_buf_rpos_p rpos, size_t *drop_size_ret) {
 	//    r_buf->round_num, r_buf->iov_index, rpos->round_num, rpos->iov_index);
 
 	/* Calc dropped size. */
-	if (((size_t)(rpos->round_num + 1)) >= r_buf->round_num) { /* rpos > wpos */
+	drop_size = (size_t)(r_buf->round_num - rpos->round_num); /* Rounds behind: wrap safe. */
+	if (drop_size > (((size_t)~0) >> 1)) { /* rpos > wpos */
 		drop_size = 0;
 	} else { /* rpos << wpos: wery slow reader. */
-		drop_size = (r_buf->size * (r_buf->round_num - rpos->round_num));
+		/* Skipped rounds + tail of reader round + writed in current round. */
+		drop_size = (((drop_size - 1) * r_buf->size) +
+		    (r_buf->size - (size_t)(r_buf->iov[rpos->iov_index].iov_base - r_buf->buf)) +
+		    r_buf->wpos);
 	}
 	rpos->iov_off = 0;
-	rpos->iov_index = (r_buf->iov_index + 1);
+	rpos->iov_index = (r_buf->iov_index +
+	    ((0 != r_buf->iov[r_buf->iov_index].iov_len) ? 1 : 0)); /* Current block may be not commited yet. */
 	rpos->round_num = r_buf->round_num;
 	if (NULL != drop_size_ret) {
 		(*drop_size_ret) = drop_size;
@@ -358,7 +376,8 @@ r_buf_alloc(uintptr_t fd, size_t size, size_t min_block_size) {
 	r_buf_p r_buf;
 	size_t page_size;
 
-	if (0 == size || 0 == min_block_size) /* Prevent division by zero. */
+	if (0 == size || 0 == min_block_size || /* Prevent division by zero. */
+	    size < min_block_size) /* No room for one block. */
 		return (NULL);
 
 	r_buf = calloc(1, sizeof(r_buf_t));
@@ -487,7 +506,7 @@ r_buf_wbuf_set(r_buf_p r_buf, size_t offset, size_t buf_size) {
 		return (EINVAL);
 	data_size = (buf_size - offset);
 	if (data_size < r_buf->min_block_size || /* Data to small. */
-	    data_size > (r_buf->size - r_buf->wpos)) /* Not enough space. */
+	    buf_size > (r_buf->size - r_buf->wpos)) /* Not enough space: wpos moves by buf_size. */
 		return (EINVAL);
 	r_buf->iov[r_buf->iov_index].iov_len = data_size;
 	if (0 != offset) {
@@ -495,7 +514,7 @@ r_buf_wbuf_set(r_buf_p r_buf, size_t offset, size_t buf_size) {
 		r_buf->iov[r_buf->iov_index].iov_base += offset;
 	}
 	r_buf->wpos += buf_size;
-	r_buf->iov_index_max = MAX(r_buf->iov_index_max, r_buf->iov_index);
+	/* iov_index_max: last block of previous round, set only on wrap. */
 
 	return (0);
 }
@@ -520,7 +539,7 @@ r_buf_wbuf_set2(r_buf_p r_buf, uint8_t *buf, size_t buf_size, r_buf_rpos_p rpos)
 	r_buf->iov[r_buf->iov_index].iov_base = buf;
 	r_buf->iov[r_buf->iov_index].iov_len = buf_size;
 	r_buf->wpos = (size_t)(buf_end - r_buf->buf);
-	r_buf->iov_index_max = MAX(r_buf->iov_index_max, r_buf->iov_index);
+	/* iov_index_max: last block of previous round, set only on wrap. */
 
 	if (NULL != rpos) {
 		rpos->iov_index = r_buf->iov_index;
